@@ -28,6 +28,9 @@ def showLst (l : List String) : String := if l.isEmpty then "-" else String.inte
 def bit? : String → Option Bool
   | "1" => some true | "0" => some false | _ => none
 def showBit (b : Bool) : String := if b then "1" else "0"
+/-- crontab tokens carry `␣` for a blank -/
+def cron (s : String) : String := if s == "_" then "" else String.ofList (s.toList.map (fun c => if c == '␣' then ' ' else c))
+def showCron (s : String) : String := if s == "" then "_" else String.ofList (s.toList.map (fun c => if c == ' ' then '␣' else c))
 def optStr (s : String) : Option String := if s == "~" then none else some (str s)
 
 def get (k : String) (toks : List String) : Option String := kv? k toks
@@ -43,7 +46,7 @@ def parseKube (t : List String) : Option KubeV1 := do
          group := str (getD "g" t "_"), passthru := getD "pt" t "" }
 
 def parseSched (t : List String) : Option SchedV1 := do
-  some { name := str (← get "name" t), crontab := ← get "c" t, crontabOK := ← bit? (getD "cok" t "1"),
+  some { name := str (← get "name" t), crontab := cron (← get "c" t), parseOK := ← bit? (getD "cok" t "1"),
          allowFailure := ← bit? (getD "af" t "0"), includes := lst (getD "inc" t "-"), queue := str (getD "q" t "_"),
          group := str (getD "g" t "_") }
 
@@ -68,7 +71,7 @@ def showKube (v0 : Bool) (k : KubeEff) : String :=
   s!"name={showStr k.name} ev={showLst k.events} {flags} af={showBit k.allowFailure} inc={showLst k.includes} q={showStr k.queue} g={showStr k.group} pt={k.passthru}"
 
 def showSched (s : SchedEff) : String :=
-  s!"name={showStr s.name} c={s.crontab} af={showBit s.allowFailure} inc={showLst s.includes} q={showStr s.queue} g={showStr s.group}"
+  s!"name={showStr s.name} c={showCron s.crontab} af={showBit s.allowFailure} inc={showLst s.includes} q={showStr s.queue} g={showStr s.group}"
 
 def showAdm (a : AdmEff) : String :=
   s!"name={showStr a.name} inc={showLst a.includes} g={showStr a.group} fp={showStr a.failurePolicy} sf={showStr a.sideEffects} to={a.timeout} pt={a.passthru}"
@@ -85,7 +88,7 @@ def parseKubeEff (v0 : Bool) (t : List String) : Option KubeEff := do
          group := str (← get "g" t), passthru := ← get "pt" t }
 
 def parseSchedEff (t : List String) : Option SchedEff := do
-  some { name := str (← get "name" t), crontab := ← get "c" t, allowFailure := ← bit? (← get "af" t),
+  some { name := str (← get "name" t), crontab := cron (← get "c" t), allowFailure := ← bit? (← get "af" t),
          includes := lst (← get "inc" t), queue := str (← get "q" t), group := str (← get "g" t) }
 
 def parseAdmEff (t : List String) : Option AdmEff := do
@@ -201,7 +204,7 @@ def step (st : St) (toks : List String) : St × String :=
   | "sched0" :: t =>
     match get "name" t, get "c" t, (get "cok" t).bind bit?, (get "af" t).bind bit? with
     | some n, some c, some cok, some af =>
-      ({ st with d0 := { st.d0 with scheds := st.d0.scheds ++ [{ name := str n, crontab := c, crontabOK := cok, allowFailure := af }] } }, "ok")
+      ({ st with d0 := { st.d0 with scheds := st.d0.scheds ++ [{ name := str n, crontab := cron c, parseOK := cok, allowFailure := af }] } }, "ok")
     | _, _, _, _ => (st, "bad-op")
   | "kube0" :: t =>
     match get "name" t, get "ev" t, (get "af" t).bind bit?, get "pt" t with
